@@ -13,6 +13,11 @@ Also translated:
   gen_binop_prec        : _binary_op_precedence (operator spelling -> level of _Precedence, mapped by member NAME to the
                           numbering of ast._Precedence used by the model); empty when the tree has no precedence machinery.
                           The order of the members of _Precedence is pinned (the model compares levels with <).
+  rq_* / pr_*           : the `precedence=` argument of every _yield / _join call of every Expr*.iterate method (absent = NONE;
+                          the set of (class, yielded thing) slots is pinned: a new, missing or renamed slot fails closed;
+                          ExprBinOp / ExprBoolOp / ExprUnaryOp, whose requirements are relative to the node's own level, are
+                          read as offsets and as the two fixed levels of `**`), and every branch of _precedence (class ->
+                          level, the operator spellings it tests). The model's iterate / gprec are defined over these constants.
 """
 from __future__ import annotations
 
